@@ -20,20 +20,33 @@ pub fn std_set_into_vec(s: U64Set) -> (v: Vec<u64>)
         v@.len() <= 0x0fffffffffffffff,   // a Vec<u64> holds at most isize::MAX / 8 elements
 { s.inner.into_iter().collect() }
 
+// `v.sort_unstable_by_key(|&cell| scan_key(cell))`: std sort under an ASSUMED contract (sorted by the key function,
+// permutation); the key function itself (scan_key) is extracted and verified below
 #[verifier::external_body]
-pub fn std_sort_unstable(v: &mut Vec<u64>)
+pub fn std_sort_by_scan_key(v: &mut Vec<u64>)
     ensures
-        forall|k: int, j: int| 0 <= k < j < final(v)@.len() ==> final(v)@[k] <= final(v)@[j],
+        forall|k: int, j: int| 0 <= k < j < final(v)@.len() ==> !scan_lt(final(v)@[j], final(v)@[k]),
         final(v)@.len() == old(v)@.len(),
         final(v)@.to_set() == old(v)@.to_set(),
         old(v)@.no_duplicates() ==> final(v)@.no_duplicates(),
-{ v.sort_unstable() }
+{ v.sort_unstable_by_key(|&cell| scan_key(cell)) }
+
+//@extract fn scan_key from src/core/compact.rs ret=r tags=C10,C14
+//@spec
+ensures
+    r.0 == key_of(cell), r.1 == cell,                                              // [C10:scan_key.value]
+//@at entry
+proof {
+    assert((cell >> 58) < 64) by (bit_vector);
+    assert((1u64 << 57) == 0x0200000000000000u64) by (bit_vector);
+}
+//@end
 
 //@extract fn compact from src/core/compact.rs ret=res tags=C08,C14
 //@fnattr #[verifier::loop_isolation(false)]
 //@rewrite? "let unique_cells: HashSet<u64> = cells.iter().copied().collect();" => "let unique_cells: U64Set = std_collect_set(cells);"
 //@rewrite? "let mut current_cells: Vec<u64> = unique_cells.into_iter().collect();" => "let mut current_cells: Vec<u64> = std_set_into_vec(unique_cells);"
-//@rewrite? "current_cells.sort_unstable();" => "std_sort_unstable(&mut current_cells);"
+//@rewrite? "current_cells.sort_unstable_by_key(|&cell| scan_key(cell));" => "std_sort_by_scan_key(&mut current_cells);"
 //@spec
 ensures
     all_canonical(cells@) ==> res is Ok,                                                                           // [C08:compact.total]
@@ -41,16 +54,17 @@ ensures
     all_canonical(cells@) && res is Ok ==> (forall|m: int| max_res_le(cells@, m) ==> max_res_le(res->Ok_0@, m)),   // [C08:compact.no-finer-output]
     all_canonical(cells@) && res is Ok ==> (forall|y: A5Cell| valid(y) && max_res_le(cells@, y.resolution as int)
         ==> (covers(res->Ok_0@, y) <==> covers(cells@, y))),                                                       // [C08:compact.cover-preserved]
-    all_canonical(cells@) && antichain_set(cells@) && res is Ok ==> antichain(res->Ok_0@) && res->Ok_0@.no_duplicates(),   // [C08:compact.no-duplicates]
-    all_canonical(cells@) && antichain_set(cells@) && max_class(cells@) && res is Ok ==> maximal(res->Ok_0@),     // [C10:compact.maximal]
+    all_canonical(cells@) && antichain_set(cells@) && res is Ok ==> antichain(res->Ok_0@),                         // [C08:compact.stays-non-overlapping]
+    all_canonical(cells@) && res is Ok ==> res->Ok_0@.no_duplicates() && sorted_scan(res->Ok_0@),                  // [C08:compact.no-duplicates]
+    all_canonical(cells@) && antichain_set(cells@) && res is Ok ==> maximal(res->Ok_0@),                           // [C10:compact.maximal]
     res is Ok ==> no_merge_possible(res->Ok_0@),                                                                   // [C10:compact.fixed-point]
-    res is Ok ==> (forall|s: Seq<u64>| sorted_strict(s) && s.to_set() == cells@.to_set() && no_merge_possible(s) ==> res->Ok_0@ == s),   // [C10:compact.fixed-point-returned-unchanged]
+    res is Ok ==> (forall|s: Seq<u64>| sorted_scan(s) && s.to_set() == cells@.to_set() && no_merge_possible(s) ==> res->Ok_0@ == s),   // [C10:compact.fixed-point-returned-unchanged]
 //@at entry
 hide(enc); hide(dec); hide(decodable); hide(probe); hide(kids_ids); hide(valid); hide(is_desc); hide(anc);
 //@at before-return 1
 proof {
     lemma_empty_maximal();
-    assert forall|s: Seq<u64>| #[trigger] sorted_strict(s) && s.to_set() == cells@.to_set() implies Seq::<u64>::empty() == s by {
+    assert forall|s: Seq<u64>| #[trigger] sorted_scan(s) && s.to_set() == cells@.to_set() implies Seq::<u64>::empty() == s by {
         if s.len() > 0 {
             assert(s.to_set().contains(s[0]));
             assert(cells@.contains(s[0]));
@@ -58,22 +72,22 @@ proof {
         assert(s =~= Seq::<u64>::empty());
     }
 }
-//@at after "std_sort_unstable(&mut current_cells);"
+//@at after "std_sort_by_scan_key(&mut current_cells);"
 let ghost init = current_cells@;
 proof {
     // C08 order / multiplicity independence: the working list is the unique strictly sorted
     // enumeration of the input SET (lemma_sorted_unique); `cells` is not read again below.
-    assert(sorted_strict(current_cells@)) by {                                                                     // [C08:compact.input-normalised]
-        assert forall|k: int, j: int| 0 <= k < j < current_cells@.len() implies current_cells@[k] < current_cells@[j] by {
+    assert(sorted_scan(current_cells@)) by {                                                                       // [C08:compact.input-normalised]
+        assert forall|k: int, j: int| 0 <= k < j < current_cells@.len() implies scan_lt(current_cells@[k], current_cells@[j]) by {
             assert(current_cells@[k] != current_cells@[j]);
+            assert(!scan_lt(current_cells@[j], current_cells@[k]));
         }
     }
     assert(current_cells@.to_set() == cells@.to_set());                                                            // [C08:compact.input-set]
     if all_canonical(cells@) {
         lemma_initial_list(cells@, init);
         lemma_refines_refl(init);
-        if antichain_set(cells@) && max_class(cells@) {
-            lemma_max_class_list(cells@, init);
+        if antichain_set(cells@) {
             lemma_initial_ordered(init);
         }
     }
@@ -150,12 +164,12 @@ proof {
 }
 //@at before-tail
 proof {
-    assert forall|s: Seq<u64>| sorted_strict(s) && s.to_set() == cells@.to_set() && no_merge_possible(s) implies current_cells@ == s by {
-        lemma_sorted_unique(s, init);
+    assert forall|s: Seq<u64>| sorted_scan(s) && s.to_set() == cells@.to_set() && no_merge_possible(s) implies current_cells@ == s by {
+        lemma_sorted_scan_unique(s, init);
     }
     if all_canonical(cells@) {
         lemma_compact_final(cells@, init, current_cells@);
-        if antichain_set(cells@) && max_class(cells@) { lemma_maximal(current_cells@); }
+        if antichain_set(cells@) { lemma_maximal(current_cells@); }
     }
 }
 //@end
